@@ -177,6 +177,7 @@ pub enum ScriptCtx {
 /// Pure model data.
 pub struct Model {
     pub objs: Vec<Obj>,
+    pub in_edges: Vec<u32>, // per object: number of alive Edge structs pointing at it (kept in step with `edges`)
     pub root_obj: Vec<Option<ObjId>>,
     pub root_busy: Vec<bool>,
     pub weak_obj: Vec<Option<Option<ObjId>>>, // None = dropped; Some(None) = Weak::new()
@@ -335,6 +336,7 @@ impl World {
         World {
             m: RefCell::new(Model {
                 objs: Vec::new(),
+                in_edges: Vec::new(),
                 root_obj: Vec::new(),
                 root_busy: Vec::new(),
                 weak_obj: Vec::new(),
@@ -505,11 +507,7 @@ impl World {
         let mut n = m.root_obj.iter().filter(|r| **r == Some(o)).count() as u32;
         n += m.tls_roots.iter().filter(|r| **r == o).count() as u32;
         n += m.objs[o as usize].bulk_strong;
-        for p in m.objs.iter() {
-            if !p.edges.is_empty() {
-                n += p.edges.values().filter(|t| **t == o).count() as u32;
-            }
-        }
+        n += m.in_edges.get(o as usize).copied().unwrap_or(0);
         n
     }
 
@@ -642,6 +640,7 @@ impl World {
         let mut o = Obj::new(kind, status);
         o.created_op = m.op_index;
         m.objs.push(o);
+        m.in_edges.push(0);
         id
     }
 
@@ -744,6 +743,28 @@ impl World {
 impl Obj {
     pub fn leaked_value(&self) -> bool {
         false
+    }
+}
+
+impl Model {
+    /// owner.edges[key] = target, keeping the in-degree table in step. Returns the previous target.
+    pub fn edge_insert(&mut self, owner: ObjId, key: u32, target: ObjId) -> Option<ObjId> {
+        if self.in_edges.len() < self.objs.len() {
+            self.in_edges.resize(self.objs.len(), 0);
+        }
+        let old = self.objs[owner as usize].edges.insert(key, target);
+        if let Some(o) = old {
+            self.in_edges[o as usize] -= 1;
+        }
+        self.in_edges[target as usize] += 1;
+        old
+    }
+    pub fn edge_remove(&mut self, owner: ObjId, key: u32) -> Option<ObjId> {
+        let old = self.objs[owner as usize].edges.remove(&key);
+        if let Some(o) = old {
+            self.in_edges[o as usize] -= 1;
+        }
+        old
     }
 }
 
